@@ -39,7 +39,7 @@ Json Scenario::to_json() const {
 	j.set("readlink_fail", readlink_fail);
 	j.set("stdin_closed", stdin_closed).set("sigchld_ignored", sigchld_ignored);
 	j.set("sigterm_inherited", sigterm_inherited).set("stdin_stays_open", stdin_stays_open);
-	j.set("output_symlink", output_symlink);
+	j.set("output_symlink", output_symlink).set("heap_fill", heap_fill);
 	{ Json pd = Json::arr(); for (auto &d : path_decoys) pd.push(d); j.set("path_decoys", pd); }
 	j.set("stray_exit_step", stray_exit_step);
 	j.set("stray_status", stray_status);
@@ -92,6 +92,7 @@ bool Scenario::from_json(const Json &j, Scenario &s) {
 	s.sigterm_inherited = (int)j.geti("sigterm_inherited", 0);
 	s.stdin_stays_open = j.getb("stdin_stays_open");
 	s.output_symlink = j.getb("output_symlink");
+	s.heap_fill = (int)j.geti("heap_fill", 0);
 	if (const Json *pd = j.get("path_decoys")) for (auto &d : pd->a) s.path_decoys.push_back(d.s);
 	s.stray_exit_step = (int)j.geti("stray_exit_step", -1);
 	s.stray_status = (int)j.geti("stray_status");
@@ -237,6 +238,7 @@ static Scenario minimise(Scenario sc, const std::string &cls, const Outcome &fir
 		if (sc.sigterm_inherited) { Scenario t = sc; t.sigterm_inherited = 0; attempt(t); }
 		if (sc.stdin_stays_open) { Scenario t = sc; t.stdin_stays_open = false; attempt(t); }
 		if (sc.output_symlink) { Scenario t = sc; t.output_symlink = false; attempt(t); }
+		if (sc.heap_fill) { Scenario t = sc; t.heap_fill = 0; attempt(t); }
 		for (size_t i = 0; i < sc.path_decoys.size();) { Scenario t = sc; t.path_decoys.erase(t.path_decoys.begin() + i); if (!attempt(t)) i++; }
 		for (size_t i = 0; i < sc.faults.size(); i++) if (sc.faults[i].persistent) { Scenario t = sc; t.faults[i].persistent = false; attempt(t); }
 		for (size_t i = 0; i < sc.plans.size();) { Scenario t = sc; t.plans.erase(t.plans.begin() + i); if (!attempt(t)) i++; }
